@@ -111,7 +111,7 @@ PLANS = {
     ),
     'C05': dict(
         oracle='C05', level='exploration',
-        profiles=[('defer', 4), ('defer_act', 3), ('defer_nested', 3), ('defer_nested_outer', 2)], curated=[], configs=ALLCFG,
+        profiles=[('defer', 3), ('defer_act', 3), ('defer_cond', 2), ('defer_nested', 2), ('defer_nested_outer', 2)], curated=[], configs=ALLCFG,
         # counter boundaries: back tags deferred entries with a char, backmp11 with a uint16_t; a generator cannot reach 2^16
         # handled events, a quiet repeat operation can
         directed=[('seqwrap', ['S:0 P:0:1:0 RP:1:%d:0 P:2:2:0 N' % n for n in list(range(250, 262)) + list(range(65528, 65541))])],
